@@ -190,6 +190,29 @@ class CoreMixin:
             return tf[k] if -len(tf) <= k < len(tf) else self.unknown("elem-out-of-range", site)
         return self.mk("Elem", (v,), k, site or v.site)
 
+    NOKEY = object()
+
+    def const_key(self, n: Node):
+        """hashable Python value of a constant key expression (a constant, or a tuple of such), else NOKEY"""
+        if n.op == "Const":
+            try:
+                hash(n.attr)
+            except TypeError:
+                return self.NOKEY
+            return n.attr
+        if n.op == "Tuple" and not any(a.op == "Starred" for a in n.args) and len(n.args) <= 16:
+            ks = [self.const_key(a) for a in n.args]
+            if any(k is self.NOKEY for k in ks):
+                return self.NOKEY
+            return tuple(ks)
+        return self.NOKEY
+
+    def key_node(self, key, site=None) -> Node:
+        """node for a constant key: tuples become Tuple nodes of constants (so that they unpack and index)"""
+        if isinstance(key, tuple):
+            return self.mk("Tuple", tuple(self.key_node(k, site) for k in key), None, site)
+        return self.const(key, site)
+
     def seq_len(self, v: Node) -> Optional[int]:
         if v.op in ("Tuple", "List") and not any(a.op == "Starred" for a in v.args):
             return len(v.args)
